@@ -225,6 +225,8 @@ func computeAndConsumeResults(rootNode *RootAssertionNode, node *ast.ReturnStmt)
 
 // isErrorReturnNil returns true if the error return is guaranteed to be nil, false otherwise
 func isErrorReturnNil(rootNode *RootAssertionNode, errRet ast.Expr) bool {
+	// (parentheses do not change the returned value, e.g., `return (nil)`)
+	errRet = ast.Unparen(errRet)
 	if ident, ok := errRet.(*ast.Ident); ok && rootNode.isNil(ident) {
 		// error return is the literal nil
 		return true
@@ -245,6 +247,12 @@ func isErrorReturnNil(rootNode *RootAssertionNode, errRet ast.Expr) bool {
 
 // isErrorReturnNonnil returns true if the error return is guaranteed to be nonnil, false otherwise
 func isErrorReturnNonnil(rootNode *RootAssertionNode, errRet ast.Expr) bool {
+	errRet = ast.Unparen(errRet)
+	// The literal nil is never non-nil, whatever the type it is converted to by the context (the
+	// type checker records the type of the result for it, e.g., a pointer to a struct).
+	if rootNode.Pass().IsNil(errRet) {
+		return false
+	}
 	// The error value's type is not inhabited by nil (e.g., a named basic type such as
 	// `type Error string`), so it can never be nil.
 	if rootNode.Pass().ExprBarsNilness(errRet) {
